@@ -159,7 +159,10 @@ def run(chk):
     k = 3
     chk.sample({"raw_library": {"cells": [x["name"] for x in cases[k]["lib"]["cells"]], "features": feats(cases[k]["lib"])},
                 "spec_message_cell0": cases[k]["proto"]["cells"][0], "export": res[k]["export"]["outcome"]})
-    chk.cov["distinct_nontrivial"] = len(cases)
+    # ---- the layer registry behind "layer/purpose numbers" (specs/raw/Layers.tla)
+    from . import layersreg
+    nreg = layersreg.stage(chk, 4 if chk.tier == "thorough" else 3)
+    chk.cov["distinct_nontrivial"] = len(cases) + nreg
     return chk.finish(
         "model_checking",
         rule="instances: reflection x {None, 0, 90, 180, 270}; DAGs of 3-4 cells in all listing orders incl. reverse chains; shape sets on "
